@@ -80,7 +80,7 @@ PROPS = {
         level_text="Three-directional generated check: an independent byte-level FITS writer feeds the library reader (every getter compared with the spec), the library writer's bytes are parsed by an independent reader against the documented layout, and the library round trip must compare equal, keep every getter and evaluate bit-identically; memory and disk back ends, legacy variants; plus the ten shipped files against committed digests. Self round trips alone cannot see symmetric writer/reader mistakes; the independent codec can.",
         level_note="Trusts harness/common/fits_indep.hpp (FITS subset codec written from the standard, shares no code with cfitsio) and the committed digests in golden/shipped.digest computed on the pinned tree.",
         technique="property-based round-trip and differential testing (rapidcheck) against an independent FITS codec",
-        units=[U("c06_fits", "c06_fits.cpp", quick=16000, thorough=1500000, names=["roundtrip", "shipped"])],
+        units=[U("c06_fits", "c06_fits.cpp", quick=16000, thorough=1000000, names=["roundtrip", "shipped"])],
         rule="tables of 1..9 dims with pairwise different axis lengths, orders 0..5, coefficient palette plus special values (denormal, FLT_MAX, -0, +-inf, "
              "quiet/signalling NaN payloads), non-default extents, non-zero periods, 0..30 auxiliary keys from the accepted alphabet (short and HIERARCH), "
              "legacy variants (single ORDER card, no EXTENTS, no PERIODn), memory or disk on either side. Non-trivial: ndim>=2 with unequal axes, special "
@@ -94,7 +94,7 @@ PROPS = {
         level_text="For every generated table (1..6 dims, pairwise different axis lengths, orders, extents and periods) ALL permutations are applied for ndim<=5 (40 sampled for ndim 6): every per-dimension attribute must appear in the new order, every coefficient must be found bit for bit at its relocated index, the value at the permuted point must equal the reference sum, and the inverse permutation must restore an equal table; malformed arguments of every kind must be rejected with the table unchanged (deep snapshot), through C++ and the C wrapper.",
         level_note="Exhaustive only in the permutation, per generated table; tables are sampled.",
         technique="property-based testing (rapidcheck) with exhaustive enumeration of permutations per table and a relocation oracle",
-        units=[U("c15_permute", "c15_permute.cpp", quick=3000, thorough=300000, names=["permute", "malformed"])],
+        units=[U("c15_permute", "c15_permute.cpp", quick=3000, thorough=900000, names=["permute", "malformed"])],
         rule="permute: spec generator with distinct axes; all ndim! permutations for ndim<=5, 40 drawn for ndim 6. Non-trivial permutation: not an involution, or ndim>=3 "
              "(all axis lengths distinct); distinct = hash(spec, permutation). malformed: empty / too short / too long / duplicate / out of range / SIZE_MAX arguments. "
              "evaluations counts tables; classes count permutations.",
@@ -106,7 +106,7 @@ PROPS = {
         level_text="Stateful model-based testing: generated histories of up to 40 insertions, overwrites, removals, lookups (C++ and C) and FITS round trips (memory/disk) run against an insertion-ordered map model; the store is compared with the model after every step (order, verbatim values, typed reads, absence) and after every round trip (values modulo trailing blanks, table equality, untouched coefficients). Keys and values are classified into must-accept / must-reject / free zones taken from the documented rules, so the check demands exactly what the property and the documentation state.",
         level_note="In the free zone (dashes/underscores in short keys, FITS structural keywords, quotes in values) either outcome of write_key is accepted, but an accepted entry is then held to the map and round-trip semantics. Histories are sampled.",
         technique="stateful model-based property testing (rapidcheck) with an ordered-map reference model",
-        units=[U("c16_aux", "c16_aux.cpp", quick=8000, thorough=1000000, names=["aux_model"])],
+        units=[U("c16_aux", "c16_aux.cpp", quick=8000, thorough=4000000, names=["aux_model"])],
         rule="histories of 3..40 operations over a 45-key alphabet (short, 8/9-char boundary, HIERARCH, reserved and reserved-prefix, lower-case/punctuated, FITS structural "
              "keywords, over-long key) and values of int (incl. INT_MIN/MAX), double and string type (empty, 1 char, maximal length, one over, blanks, quotes, printable ASCII). "
              "Non-trivial history: contains an overwrite or a removal that is followed by a round trip; distinct = hash of the operation list.",
@@ -120,8 +120,8 @@ PROPS = {
         level_note="cfitsio is uninstrumented: a wild write inside it is visible only if it crashes. Evaluation of loaded tables is skipped above 24 dimensions (the derivative bitmask is an int). Sampling, not absence.",
         technique="structure-aware fuzzing (rapidcheck fork-isolated twin + libFuzzer) with an in-target semantic oracle",
         engine="rapidcheck+libFuzzer",
-        units=[U("c07_reader", "c07_reader.cpp", quick=6000, thorough=800000, names=["reader"]),
-               U("c07_reader_fuzz", "c07_reader.cpp", variant="fuzz", kind="fuzz", flags=["-DVF_FUZZ"], quick=160000, thorough=40000000, names=["reader_fuzz"], max_len=24000)],
+        units=[U("c07_reader", "c07_reader.cpp", quick=6000, thorough=400000, names=["reader"]),
+               U("c07_reader_fuzz", "c07_reader.cpp", variant="fuzz", kind="fuzz", flags=["-DVF_FUZZ"], quick=160000, thorough=12000000, names=["reader_fuzz"], max_len=24000)],
         rule="a case = base file (generated 1..4-d spec, shipped file, garbage, non-spline FITS) + 0..3 structured mutations + 0..4 byte-level mutations, read through memory "
              "(7/8), disk (1/16) or the C interface (1/16). Non-trivial: at least one mutation and the input got past cfitsio's open into the spline parsing (recognised by "
              "the exception text or success); distinct = hash of the mutation list.",
@@ -134,8 +134,8 @@ PROPS = {
         level_note="Reads of uninitialised memory are not visible to ASan (MSan is unusable here); C01-C03 cover that through stack scribbling. System libraries are uninstrumented.",
         technique="fuzzing (libFuzzer, structure-aware) plus fork-isolated property-based testing (rapidcheck) under ASan/UBSan",
         engine="rapidcheck+libFuzzer",
-        units=[U("c05_memsafe", "c05_memsafe.cpp", quick=5000, thorough=600000, names=["memsafe"]),
-               U("c05_memsafe_fuzz", "c05_memsafe.cpp", variant="fuzz", kind="fuzz", flags=["-DVF_FUZZ"], quick=100000, thorough=30000000, names=["memsafe_fuzz"], max_len=2048)],
+        units=[U("c05_memsafe", "c05_memsafe.cpp", quick=5000, thorough=160000, names=["memsafe"]),
+               U("c05_memsafe_fuzz", "c05_memsafe.cpp", variant="fuzz", kind="fuzz", flags=["-DVF_FUZZ"], quick=100000, thorough=4000000, names=["memsafe_fuzz"], max_len=2048)],
         rule="a case = table (spec generator of C01 with all producers) + 6 coordinate vectors whose entries are drawn from {raw 64-bit pattern, NaN with payload, +-inf, denormal, "
              "knot, knot neighbour, beyond the range, inside palette}. Non-trivial: the lookup succeeded and at least one coordinate is not a plain interior point (margin, knot, "
              "neighbour or non-finite: NaN passes the range test); distinct = hash(spec, point).",
@@ -147,7 +147,7 @@ PROPS = {
         level_text="Per generated table the stdio operation trace of a clean write is recorded by an in-process interposer (fopen/fwrite/fseeko/fflush/fclose/ftruncate/remove as cfitsio's disk driver calls them). Crash points: the trace is replayed into a fresh file and the disk reader is run after EVERY operation and at byte granularity inside every write (FITS-block and stdio-chunk boundaries +-1, drawn offsets): the file must be rejected or load equal. Fault sequences: the write is repeated failing exactly the k-th operation for every k (ENOSPC/EIO/EFBIG/EDQUOT, zero or short writes, once or persistently) and under RLIMIT_FSIZE in a forked child (failure surfaces at flush/close): success may be reported only if the file reads back equal, and whatever is left must be rejected or load equal; every open is matched by exactly one close. Enumeration is exhaustive per table at operation granularity; tables are generated (1..5 dims, 1..300 blocks, 0..20 aux keys, C++ and C writers). A second sub-property injects the faults one level lower: the write is done by a helper process under strace's syscall fault injection and the N-th write(2) fails (ENOSPC/EIO/EDQUOT/EFBIG, once or from then on) for every N, which reaches the write(2) calls that stdio issues on its own when fseek or fclose drains its buffer; same oracle. It is skipped with a note when strace cannot trace in the environment.",
         level_note="Any byte prefix of the write stream in issue order is a superset of the states a real crash can leave (stdio flushes its single buffer sequentially and before any seek). The Python binding calls the same write_fits and is not built in this image. Built without sanitizers because the executable itself defines the stdio symbols.",
         technique="fault injection and crash-point enumeration driven by property-based table generation (rapidcheck + stdio interposition + RLIMIT_FSIZE + strace syscall fault injection)",
-        units=[U("c08_write", "c08_write.cpp", variant="plain", extra_srcs=["c08_interpose.cpp"], quick=320, thorough=16000, names=["write_faults", "kernel_write_faults"], leaks=False, no_isolate_rerun=True)],
+        units=[U("c08_write", "c08_write.cpp", variant="plain", extra_srcs=["c08_interpose.cpp"], quick=320, thorough=48000, names=["write_faults", "kernel_write_faults"], leaks=False, no_isolate_rerun=True)],
         rule="a case = one table; evaluations counts tables, classes count the crash cuts and injected faults. Non-trivial: a crash cut that leaves a non-empty proper prefix of the "
              "file, an injected fault that was actually reached, or a size limit below the file size; distinct = hash(table, kind, operation index / byte offset / limit).",
         essential={"write_faults": {"cut:operation_boundary": 10.0, "cut:byte_granularity": 10.0, "fault:write": 3.0, "fault:close": 0.5, "fault:flush": 0.5, "fault:open": 0.5,
@@ -162,8 +162,8 @@ PROPS = {
         units=[U("c12_sched", "c12_sched.cpp", variant="plain", extra_srcs=["vsched.cpp"], flags=["-I{REPO}/src/fitter"], exclude_objs=["cholesky_solve.o"],
                  repo_srcs=[("src/fitter/cholesky_solve.c", ["-Dpthread_create=vs_create", "-Dpthread_join=vs_join", "-Dpthread_mutex_lock=vs_lock", "-Dpthread_mutex_unlock=vs_unlock",
                                                             "-Dpthread_cond_wait=vs_cond_wait", "-Dpthread_cond_broadcast=vs_broadcast", "-Dpthread_exit=vs_exit", "-Dsched_setaffinity=vs_setaffinity"])],
-                 quick=64, thorough=640, names=["sched_dfs", "sched_pct"], leaks=False, no_isolate_rerun=True),
-               U("c12_tsan", "c12_tsan.cpp", variant="tsan", kind="tsan", quick=48, thorough=4000, names=["tsan_fits"], leaks=False, no_isolate_rerun=True, workers=dict(quick=4, thorough=8), timeout=dict(quick=420, thorough=3 * 3600))],
+                 quick=64, thorough=160, names=["sched_dfs", "sched_pct"], leaks=False, no_isolate_rerun=True),
+               U("c12_tsan", "c12_tsan.cpp", variant="tsan", kind="tsan", quick=48, thorough=1200, names=["tsan_fits"], leaks=False, no_isolate_rerun=True, workers=dict(quick=4, thorough=8), timeout=dict(quick=420, thorough=3 * 3600))],
         rule="a case = one line-search problem (1..6 unknowns, 0..6 infeasible components => 2..8 trial steps, 1..4 workers) and a set of schedules: sched_dfs enumerates the tree of "
              "choice sequences (budget 2500 leaves quick / 450000 thorough; 'exhaustive_tree' when the tree was finished), sched_pct runs 300 (3000) PCT/random schedules. evaluations "
              "counts problems; class 'schedules' counts executed schedules. Non-trivial schedule: a worker finished a computation while the coordinator was between unlock and wait, "
@@ -187,7 +187,7 @@ PROPS = {
         level_text="Every exported NNLS solver (block3 as used by fit, block, block_updown, Lawson-Hanson in normal-equation and least-squares mode) is run on generated symmetric positive-definite systems passed exactly as fit passes them (full storage, stype 0). Oracles: enumeration of all 2^n active sets in long double for n<=10; constructed optima (b := A x0 - g0 with complementary x0,g0>=0) with exactly-zero and tied components for any n up to 200 (sparse banded); and the KKT conditions on the returned vector with tolerances tied to each solver's stated tolerance. Each solve runs in a forked child so exit(1), aborts and hangs are failing cases.",
         level_note="Tolerances: block3 n*eps*1e5, block/block_updown 1e-6 (their KKT_TOL, absolute), Lawson-Hanson 0 as passed; plus 64*n*eps*(|A||x|+|b|). OMP_NUM_THREADS=2 for block3's line search (C12 owns the schedule dimension).",
         technique="property-based testing (rapidcheck, fork-isolated) with an exhaustive-enumeration reference and constructed-optimum oracle",
-        units=[U("c11_nnls", "c11_nnls.cpp", quick=6000, thorough=1000000, names=["kkt_small", "kkt_large_sparse"])],
+        units=[U("c11_nnls", "c11_nnls.cpp", quick=6000, thorough=1000000, names=["kkt_small", "kkt_large_sparse", "kkt_medium_dense"])],
         rule="systems A = M'M (M random dense/sparse/banded with sqrt(delta) I rows, delta in 1e-6..1, column scaling 2^+-15 for the badly-scaled class); b random or constructed "
              "from a chosen optimum. Non-trivial: the minimiser has at least one zero and one positive component; distinct = hash(solver, A, b).",
         essential={"kkt_small": {"solver:block3": 0.1, "solver:block": 0.1, "solver:block_updown": 0.1, "solver:lawson_hanson_normal": 0.1, "solver:lawson_hanson_lsq": 0.1,
@@ -221,7 +221,7 @@ PROPS = {
         level_text="Generated tables (1..4 dims, order 0..5 in the convolved dimension, any dimension index, irregular knots or a common grid with the kernel) are convolved with generated kernels of 2..6 increasing knots (symmetric, one-sided, shifted; wider and narrower than the knot spacing). Oracle: the new order and the sorted pairwise-sum knot vector bit for bit, untouched other dimensions, well-formed strides/counts; and at 10 points across the new knot range (interior, margins, knots) the table value must equal the convolution integral of the ORIGINAL reference surface with the unit-area kernel B-spline, integrated exactly by 8-point Gauss-Legendre between all breakpoints.",
         level_note="Tolerance 32*eps_float*max|coeff| (measured worst case 0.5); the convolved dimension uses irregular knots with spacing ratio <= 12 and offsets in [-3,0] because blossoming through divided differences cannot deliver single precision when the spacing is tiny compared with the knot values (e.g. offset 1e6, spacing 1e-6). The largest observed error per (order, n) is in the evidence.",
         technique="property-based testing (rapidcheck, fork-isolated) with a quadrature reference oracle",
-        units=[U("c14_convolve", "c14_convolve.cpp", quick=1600, thorough=250000, names=["convolution"])],
+        units=[U("c14_convolve", "c14_convolve.cpp", quick=1600, thorough=750000, names=["convolution"])],
         rule="Non-trivial: order>=1 with >=3 kernel knots, or a convolved dimension that is not the last one of a >=2-d table, or table and kernel on a common grid (repeated new knots); "
              "distinct = hash(spec, dimension, kernel knots).",
         essential={"convolution": {"order:0": 0.05, "order:2": 0.05, "order:5": 0.03, "kernel:on_grid": 0.1, "dim:not_last": 0.1, "kernel_knots:2": 0.05, "kernel_knots:6": 0.05}},
@@ -242,7 +242,7 @@ PROPS = {
         level_text="Generated table files (independent writer; 1..6 dims, mixed orders 0..5, up to 1e5 coefficients, 0..50 auxiliary keys of all accepted lengths incl. maximal key+value) are loaded into splinetable<CheckedAlloc> from their path and optionally convolved exactly as declared to estimateMemory (2..8 kernel knots, any dimension). The allocator's ledger gives the peak number of bytes simultaneously requested, which must not exceed the estimate; the ledger must also balance (every block returned exactly once).",
         level_note="Only requests made through the table's allocator are counted, as the property states (convolve's temporaries use operator new). A fixed-size arena's own bookkeeping overhead is outside the estimate's scope.",
         technique="property-based testing (rapidcheck) with a byte-counting allocator as measurement oracle",
-        units=[U("c19_estimate", "c19_estimate.cpp", quick=2500, thorough=400000, names=["estimate_bounds_peak"])],
+        units=[U("c19_estimate", "c19_estimate.cpp", quick=2500, thorough=2000000, names=["estimate_bounds_peak"])],
         rule="Non-trivial: a convolution is requested, or >=10 auxiliary keys, or ndim>=3; distinct = hash(spec, aux count, kernel knots, dimension).",
         essential={"estimate_bounds_peak": {"convolution:yes": 0.4, "aux>=10": 0.2, "coeffs:>=1e4": 0.006}},
         assumptions=["sizeof(splinetable) is part of the estimate but not of the measured requests"],
@@ -263,7 +263,7 @@ PROPS = {
         level_text="Stateful differential testing of the C interface: generated sequences of up to 30 calls over 1..3 handles (init, free incl. double free, read of good / missing / damaged files into empty and occupied handles, read_mem, write to writable / unwritable paths and to memory incl. an occupied destination, get/read/write key with present, absent, reserved and malformed keys, every getter, tablesearchcenters and the three evaluators, convolve, glamfit with valid and invalid arguments, grideval + ndsparse_destroy, valid and invalid permutations) are mirrored call by call on C++ twin objects. The C return must signal failure exactly when the C++ operation throws or returns failure; after every call every getter and auxiliary key of every handle must equal its twin (bit for bit for evaluations); the case runs in a forked child (an escaping exception terminates it = failing case) and LeakSanitizer runs after every case.",
         level_note="Only handles in a state the header allows are used (initialised, or freed to NULL and then only init/free/read); gradients are only requested for tables the layout supports because the void wrapper cannot report failure.",
         technique="stateful differential property testing (rapidcheck, fork-isolated, ASan/LSan) against a C++ twin",
-        units=[U("c18_cinter", "c18_cinter.cpp", quick=2000, thorough=300000, names=["cinter_twin"])],
+        units=[U("c18_cinter", "c18_cinter.cpp", quick=2000, thorough=160000, names=["cinter_twin"])],
         rule="Non-trivial history: contains a failing call followed by a successful use of the same handle, or a grid evaluation; distinct = hash of the call list.",
         essential={"cinter_twin": {"history:failure_then_use_or_grideval": 0.3, "op:read_missing": 0.2, "op:glamfit_invalid": 0.2, "op:permute_invalid": 0.05, "op:grideval": 0.05, "op:read_key_int": 0.05, "op:free": 0.3}},
         assumptions=["the C++ twin is driven through the public C++ API only"],
